@@ -91,6 +91,20 @@ class TractParser:
             self.e_flags = parent.e_flags.copy()
             self.w_flag_lines = parent.w_flag_lines.copy()
             self.e_flag_lines = parent.e_flag_lines.copy()
+            # Whatever an earlier parse of the parent generated will be
+            # generated anew by this parse, so do not inherit it again.
+            stale_flags = getattr(
+                parent, '_parse_generated_flags', ((), (), (), ()))
+            inherited = (
+                self.w_flags, self.w_flag_lines, self.e_flags, self.e_flag_lines)
+            for flag_list, stale in zip(inherited, stale_flags):
+                for flag in stale:
+                    if flag in flag_list:
+                        flag_list.remove(flag)
+        # How many flags were inherited (everything after was generated here).
+        self.n_inherited_flags = (
+            len(self.w_flags), len(self.w_flag_lines),
+            len(self.e_flags), len(self.e_flag_lines))
 
         self.parse()
 
